@@ -153,6 +153,23 @@ def run(tier, seed, replay=None):
         for i in idxs:
             chk.violation("impl:%s:%s" % (inv, json.dumps({k: v for k, v in cs[i].items() if k != "k"})), "writer/reader on population %s violates %s; file facts %s; reader ok=%s" % (
                 json.dumps(cs[i]), inv, json.dumps({k: v for k, v in recs[i]["file"].items() if k not in ("coords", "rows")}), recs[i]["read"]["ok"]), {"case": cs[i], "invariant": inv})
+    # a population with more than 65536 points and 131072 triangles in one file (offsets, counts and face numbers beyond 16 bits)
+    if not replay:
+        bp = os.path.join(work, "big.ndjson")
+        rc, out = vlib.run([os.path.join(bdir, "vtk_driver"), "big", bp, work], timeout=900)
+        brow = vlib.read_ndjson(bp) if os.path.exists(bp) else []
+        if rc != 0 or not brow:
+            chk.violation("crash:big", "vtk_driver big terminated with status %d (crash in the writer or the reader on a population of 65574 points)\n%s" % (rc, out[-300:]))
+        else:
+            nb, bbad = vlib.tlc_validate_records(SPEC, "BigVtkTrace", "BigVtkTrace.cfg", brow, chunk=5, par=1, workers=1)
+            chk.cov["states"] += nb
+            chk.cov["transitions"] += nb
+            n += nb
+            if "P_BigIsBig" in bbad and not (set(bbad) - {"P_BigIsBig"}) and brow[0]["write_error"] == "" and brow[0]["read_error"] == "":
+                raise ModelError("the big population is not big: %r" % brow[0])
+            for inv in sorted(set(bbad) - {"P_BigIsBig"}):
+                chk.violation("impl:%s:big" % inv, "round trip of a population with %d points / %d triangles in one file violates %s: %s" % (brow[0]["npoints"], brow[0]["ntris"], inv, json.dumps(brow[0])), {"big_record": brow[0]})
+            chk.cov["big_population"] = {k_: brow[0][k_] for k_ in ("npoints", "ntris")}
     chk.cov["traces_validated_against_impl"] = n
     chk.cov["evaluations"] = n
     chk.cov["distinct_nontrivial"] = len({json.dumps({k: v for k, v in c.items() if k != "k"}) for c in cs})
